@@ -29,7 +29,7 @@ func DefaultFileCfg() FileCfg {
 	return FileCfg{CF: cf, MaxTops: 6, Texts: true, Movements: true, Marts: true, Maps: true, Raws: true, Format: true, MultiPart: true, Typed: true}
 }
 
-var textPool = []string{"Hello", "Hello$", "Hi there$", "Hi there", "Bye now$", "Bye now", "A {PLAYER} appears", "é ß ü", `Line one\nLine two`, `Wait\pMore`, "x", "Some longer text that needs wrapping when it is formatted for the box", "Ends in dollar$", "100% sure", "5%% %s %d", "", "Two lines\n\t\tin one literal", "Two lines in one literal", "CR LF\r\n  inside", "CR LF inside", "Level 1", "Level 100", `Path C:\\`}
+var textPool = []string{"Hello", "Hello$", "Hi there$", "Hi there", "Bye now$", "Bye now", "A {PLAYER} appears", "é ß ü", `Line one\nLine two`, `Wait\pMore`, "x", "Some longer text that needs wrapping when it is formatted for the box", "Ends in dollar$", "100% sure", "5%% %s %d", "", "Two lines\n\t\tin one literal", "Two lines in one literal", "CR LF\r\n  inside", "CR LF inside", "Level 1", "Level 100", `Path C:\\`, "brailleHello", "customHello"}
 var stepPool = []string{"walk_up", "walk_down", "walk_left", "face_right", "delay_16", "jump_2_up", "step_end", "slow_step_end"}
 var itemPool = []string{"ITEM_POTION", "ITEM_ANTIDOTE", "ITEM_REPEL", "ITEM_NONE", "ITEM_POKE_BALL", "ITEM_RARE_CANDY"}
 var stringTypes = []string{"ascii", "braille", "custom"}
@@ -240,6 +240,9 @@ func GenFile(t *rapid.T, cfg FileCfg) *File {
 			for l := 0; l < lines; l++ {
 				if l > 0 {
 					sb.WriteString("\n")
+					if rapid.IntRange(0, 4).Draw(t, "rawblank") == 0 {
+						sb.WriteString("\n") // a blank line in the middle of the block
+					}
 				}
 				fmt.Fprintf(&sb, "\t.rawdata %d, %d", idx, l)
 			}
